@@ -7,7 +7,7 @@ Extracted (all syntactically local):
   * `dispatch : List (String × Bool)`  — every arm `"NAME" => <expr>` of `match command_name.as_str()` in
     `process_normal_command` (src/network/server.rs): the name, and whether the handler expression mentions the
     variable `db` (the database index process_frame read from the connection);
-  * `preDispatch : List String` — names `process_frame` handles before the MULTI-queue test / the dispatch
+  * `preDispatch : List String` — names `process_frame` answers itself, before the dispatch
     (auth gate arms, MONITOR, MULTI/EXEC/DISCARD/WATCH/UNWATCH, pub/sub, AUTH, REPLCONF) plus SYNC/PSYNC which
     `process_connection` answers itself;
   * `execSelectEffective : Bool` — does `handle_exec` make a queued SELECT take effect?  (false: `process_command_parts`
@@ -163,7 +163,12 @@ def facts(src, strip_comments, fn_body):
     pf = fn_body(server, "process_frame")
     pre = None
     if pf is not None and "should_queue_command" in pf and "process_normal_command" in pf:
-        head = pf[:pf.index("should_queue_command")]
+        # everything process_frame answers itself: up to the hand-over to the dispatch (the CLIENT PAUSE exemption
+        # `_ if !matches!(.., "AUTH" | "CLIENT" | "QUIT")` just before it is not a handler); the MULTI-queue test sits
+        # inside this region (before the pub/sub arms since b37919c, after them before)
+        cut = pf.index("process_normal_command")
+        m = re.search(r"_\s+if\s+!\s*matches!", pf[:cut])
+        head = pf[:m.start()] if m else pf[:cut]
         pre = []
         for nm in re.findall(r'"([A-Z_]+)"\s*(?:=>|\|)', head) + re.findall(r'==\s*"([A-Z_]+)"', head) + \
                 re.findall(r'\|\s*"([A-Z_]+)"\s*\)', head):
@@ -175,7 +180,7 @@ def facts(src, strip_comments, fn_body):
                 pre.append(nm)
     if not pre or "EXEC" not in pre or "MULTI" not in pre:
         out["preDispatch"] = None
-        out["preDispatch_why"] = "names handled by process_frame before the queue test not recognised"
+        out["preDispatch_why"] = "names handled by process_frame before the dispatch not recognised"
     else:
         out["preDispatch"] = pre
     # ---- does a SELECT queued in MULTI take effect at EXEC?
@@ -228,7 +233,7 @@ def generate(src, strip_comments, fn_body, HEADER):
         L.append(",\n".join('  ("%s", %s)' % (n, "true" if b else "false") for n, b in f["dispatch"]))
         L.append("]")
     L.append("")
-    L.append("/-- names answered by `process_frame` before the MULTI-queue test and the dispatch (plus SYNC/PSYNC, answered by `process_connection`) -/")
+    L.append("/-- names answered by `process_frame` itself, before the dispatch (plus SYNC/PSYNC, answered by `process_connection`) -/")
     if f["preDispatch"] is None:
         L.append("def preDispatch : List String := " + failed("preDispatch"))
     else:
